@@ -183,7 +183,8 @@ def _rand_value(rng: random.Random):
 
 
 def _literal(rng: random.Random):
-    return rng.choice(["lit", "n{idx}", "p{hier_idx}/{idx}", 42, 0, True, False, 1.25, "", "{idx}{idx}"])
+    # (a literal None is a value like any other: only a *randomizer* answering None means "skip this attribute")
+    return rng.choice(["lit", "n{idx}", "p{hier_idx}/{idx}", 42, 0, True, False, 1.25, "", "{idx}{idx}", None])
 
 
 def _attrs(rng: random.Random, names, n):
